@@ -167,8 +167,8 @@ PROPS = {
     "C05": risk_prop2(["liquidate"], LIQ_DRIVERS + LEDGER_DRIVERS + STAKED_DRIVERS, models=RISK_MODELS),
     "C07": risk_prop2(["bankruptcy"], LIQ_DRIVERS + LEDGER_DRIVERS, models=RISK_MODELS),
     "C09": risk_prop2(["borrow", "withdraw", "liquidate", "bankruptcy", "pulse_health"], LIQ_DRIVERS + RISK_DRIVERS + LEDGER_DRIVERS + STAKED_DRIVERS + KAMINO_DRIVERS, models=RISK_MODELS + ORACLE_MODELS),
-    "C13": risk_prop2(["add_bank", "add_bank_staked", "init_staked_settings", "edit_staked_settings", "propagate_staked", "configure_bank", "configure_emode", "borrow", "withdraw", "pulse_health", "bankruptcy", "clone_emode"],
-                      LIQ_DRIVERS + RISK_DRIVERS + ADMIN_DRIVERS + STAKED_DRIVERS, models=RISK_MODELS + CONFIG_MODELS),
+    "C13": risk_prop2(["add_bank", "add_bank_staked", "add_bank_kamino", "init_staked_settings", "edit_staked_settings", "propagate_staked", "configure_bank", "configure_emode", "borrow", "withdraw", "pulse_health", "bankruptcy", "clone_emode"],
+                      LIQ_DRIVERS + RISK_DRIVERS + ADMIN_DRIVERS + STAKED_DRIVERS + KAMINO_DRIVERS, models=RISK_MODELS + CONFIG_MODELS),
     "C14": risk_prop2(["deposit", "withdraw", "borrow", "repay", "liquidate", "bankruptcy", "propagate_fee"], LIQ_DRIVERS + RISK_DRIVERS, models=GATE_MODELS),
     "C01": ledger_prop(),
     "C02": dict(ledger_prop(extra_ops=["purge", "transfer_account", "kamino_deposit", "kamino_withdraw"]), drivers=LEDGER_DRIVERS + LIQ_DRIVERS + ADMIN_DRIVERS + KAMINO_DRIVERS, models=LEDGER_MODELS + VENUE_MODELS),
